@@ -9,6 +9,10 @@ def intrinsicDispatch (toks : List String) : Option String :=
   -- inputs of recorded findings (KNOWN_FINDINGS.txt): the property demands "ok" (another password is refused; an
   -- issued ticket is resumed or replaced by a full handshake)
   | "pkcs8hmaceq" :: _ => some "ok" | "p12pweq" :: _ => some "ok" | "bigticket" :: _ => some "ok"
+  -- C17: a SignedData object with n signers verifies iff no signer's signature was altered (every signer counts)
+  | ["p7multi", _, k, _, _] => some (if k == "-" then "ok" else "reject")
+  -- C07: a record the transport refused is missing at the peer: what follows it (close_notify) must not authenticate
+  | "recwfail" :: _ => some "rejected"
   | "colddec" :: _ => some "ok"  -- C18: a decoder as the first action of a fresh process: returns, no panic
   | "sm2fresh" :: _ => some "ok" -- C01: n signatures with n fresh random streams: every one verifies, no r twice      -- C18: a decoder on one (mutated) input: returns, within time and memory limits
   | _ => none
